@@ -650,3 +650,44 @@ def inlined_body(fn, by_pat, depth=2, _stack=(), keep=()):
                 return {"k": "Block", "s": stmts_of(inner), "loc": s.get("loc"), "inlined": cal.get("name")}
         return {k: rec(v, d) for k, v in s.items()}
     return rec(fn.get("body"), depth)
+
+
+# ---------------------------------------------------------------------------------------------------------------------------
+# truth tables: evaluate a boolean expression under an assignment of its atoms (three-valued: None = unknown), so that a rule
+# can require "filter == (A ? U : L) for every assignment" instead of one particular spelling of the expression
+# ---------------------------------------------------------------------------------------------------------------------------
+def tt_eval(e, atom, inl=None, depth=0):
+    """atom(node) -> True / False / None ('not an atom I know'); &&, ||, !, ?:, bool literals and single-assignment locals (inl)
+    are evaluated structurally"""
+    e = strip(e)
+    if not isinstance(e, dict):
+        return None
+    a = atom(e)
+    if a is not None:
+        return a
+    k = e.get("k")
+    if k == "Ref" and inl and e.get("d") in inl and depth < 6:
+        return tt_eval(inl[e["d"]], atom, inl, depth + 1)
+    if k == "Bool":
+        return bool(e.get("b"))
+    if k == "Un" and e.get("op") == "!":
+        v = tt_eval(e["e"], atom, inl, depth)
+        return None if v is None else (not v)
+    if k == "Bin" and e.get("op") in ("&&", "||"):
+        l, r = tt_eval(e["l"], atom, inl, depth), tt_eval(e["r"], atom, inl, depth)
+        if e["op"] == "&&":
+            if l is False or r is False:
+                return False
+            return True if (l is True and r is True) else None
+        if l is True or r is True:
+            return True
+        return False if (l is False and r is False) else None
+    if k == "Cond":
+        c = tt_eval(e["c"], atom, inl, depth)
+        if c is None:
+            x, y = tt_eval(e["a"], atom, inl, depth), tt_eval(e["e"], atom, inl, depth)
+            return x if x == y else None
+        return tt_eval(e["a"] if c else e["e"], atom, inl, depth)
+    if k == "Call" and e.get("cname") in ("move", "forward") and e.get("args"):
+        return tt_eval(e["args"][0], atom, inl, depth)
+    return None
